@@ -192,9 +192,28 @@ def r1(ctx, R):
     if not rs or not _reached(wi, rs, _mode_outcome("relative", ext)):
         R.bad(wi, wi.node, "relative mode outside the base's tree is not refused", stmt="wrap_impl[relative]")
     R.inst("wrap_impl inside the tree: root -> rootspace, descendants -> get_impl_from_name")
-    if not any(norm(r_.value) == "self.owner.rootspace" and ("root == impl", "T") in q.guards_of(wi, r_) for r_ in rets) or \
+    BASE_ROOT, TARGET = "self.owner.rootspace._dynbase.idstr", "value.interface._impl.idstr"
+
+    def _root_is_target(pair):
+        t, l = pair
+        return l == "T" and t in ("%s == %s" % (BASE_ROOT, TARGET), "%s == %s" % (TARGET, BASE_ROOT))
+    if not any(q.anorm(wi, r_.value) == "self.owner.rootspace" and any(_root_is_target(p) for p in q.guards_of(wi, r_)) for r_ in rets) or \
             not any(isinstance(r_.value, ast.Call) and call_name(r_.value) == "get_impl_from_name" for r_ in rets):
-        R.bad(wi, wi.node, "objects inside the base's tree are not mapped to the dynamic tree", stmt="wrap_impl inside")
+        R.bad(wi, wi.node, "objects inside the base's tree are not mapped to the dynamic tree: the tree is that of the base "
+                           "the root ItemSpace was built from (`rootspace._dynbase`), compared with the referenced object",
+              stmt="wrap_impl inside")
+    # the prefix test and the name handed to get_impl_from_name are taken against the same base root
+    R.inst("wrap_impl: descendants are recognised by the base root plus the separator, and looked up by the rest")
+    pref = [n_ for n_ in wi.cfg.nodes if n_.kind == "test" and isinstance(n_.ast, ast.Compare) and "[:" in norm(n_.ast)]
+    okp = False
+    for n_ in pref:
+        t = q.anorm(wi, n_.ast)
+        if t in ("%s + '.' == %s[:len(%s) + 1]" % (BASE_ROOT, TARGET, BASE_ROOT), "%s + '.' == %s[:rootlen + 1]" % (BASE_ROOT, TARGET)):
+            okp = True
+    rl = [q.rnorm(wi, v) for v in assigned_value(wi, "rootlen")]
+    if not okp or (rl and rl != ["len(%s)" % BASE_ROOT]):
+        R.bad(wi, wi.node, "descendants of the base root are not recognised by `<base root>.` as a whole path component",
+              stmt="wrap_impl prefix")
 
 
 @rule("C10.R2", "C10", "FLOW", "the mode value flows unmodified end to end", min_instances=12)
@@ -370,3 +389,26 @@ def r3(ctx, R):
                     R.bad(f, c, "dotted ids are compared by plain string prefix: 'S' matches 'S2.x' - an object of a sibling "
                                 "space with a common name prefix is taken to be inside the tree")
     R.need(n >= 2, "expected >=2 id-prefix comparisons, found %d" % n)
+    # ancestry of dotted ids, used by get_relative to decide whether the referenced object lies in the base's tree
+    hp = ctx.repo.module("modelx.core.model").funcs.get("has_parent")
+    R.inst("has_parent(node, parent): parent is an ancestor at any depth (node cut to parent's length equals parent)")
+    if hp is None:
+        R.bad("modelx.core.model", None, "has_parent is gone", stmt="has_parent")
+    else:
+        ok = False
+        for x in walk_local(hp.node):
+            if isinstance(x, ast.Compare) and len(x.ops) == 1 and isinstance(x.ops[0], ast.Eq):
+                sides = {q.rnorm(hp, x.left, depth=4), q.rnorm(hp, x.comparators[0], depth=4)}
+                if "parent" in sides and sides & {"trim_right(node, len_node(node) - len_node(parent))"}:
+                    ok = True
+            if isinstance(x, ast.Call) and call_name(x) == "startswith" and norm(x.func.value) == "node" and x.args \
+                    and ast.unparse(x.args[0]).replace("'", '"') in ('parent + "."', ):
+                ok = True
+        if not ok or any(isinstance(c, ast.Call) and call_name(c) == "split_node" for c in walk_local(hp.node)):
+            R.bad(hp, hp.node, "has_parent does not test ancestry at every depth (a direct-parent test makes references to "
+                               "objects two or more levels below the derived pair stay absolute)", stmt="has_parent body")
+    gr_ = ctx.func("SpaceGraph.get_relative")
+    R.inst("get_relative: the referenced object is inside the base root (equal or has_parent) before it is mapped")
+    hpc = q.calls(gr_, name="has_parent")
+    if not hpc or [norm(a) for a in hpc[0].args] != ["shared_parent", "basroot"]:
+        R.bad(gr_, gr_.node, "containment in the base root is not tested with has_parent(shared_parent, basroot)", stmt="has_parent(")
